@@ -730,7 +730,7 @@ func (t DisjunctionType) DeepCopy() DisjunctionType {
 }
 
 type ArrayType struct {
-	ValueType Type `yaml:"value_type"`
+	ValueType Type `yaml:"value_type" jsonschema:"required"`
 }
 
 func (t *ArrayType) AcceptsValue(value any) bool {
@@ -811,7 +811,7 @@ func (t EnumType) DeepCopy() EnumType {
 }
 
 type EnumValue struct {
-	Type  Type
+	Type  Type `jsonschema:"required"`
 	Name  string
 	Value any
 }
@@ -825,8 +825,8 @@ func (t EnumValue) DeepCopy() EnumValue {
 }
 
 type MapType struct {
-	IndexType Type
-	ValueType Type
+	IndexType Type `jsonschema:"required"`
+	ValueType Type `jsonschema:"required"`
 }
 
 func (t MapType) IsMapOf(acceptedKinds ...Kind) bool {
@@ -900,7 +900,7 @@ func (structType StructType) FieldByRefName(refName string) StructField {
 type StructField struct {
 	Name        string
 	Comments    []string `json:",omitempty"`
-	Type        Type
+	Type        Type     `jsonschema:"required"`
 	Required    bool
 	PassesTrail []string `json:",omitempty"`
 }
